@@ -896,12 +896,14 @@ static const unsigned HSVC[] = {
         VBI_SLICED_WSS_625, VBI_SLICED_CAPTION_625_F1, VBI_SLICED_CAPTION_625_F2, VBI_SLICED_CAPTION_625,
 };
 #define NHSVC ((int)(sizeof HSVC / sizeof *HSVC))
-#define NHLET (2 * NHSVC + 3)          /* add x9, remove x9, change the field storage mode, decode a blank frame, decode the reference frame */
+#define NHLET (2 * NHSVC + 4)          /* add x9, remove x9, resize, change the field storage mode, decode a blank frame, decode the reference frame */
 static const char *hsvc_name[] = { "B_L10", "B_L25", "B", "VPS", "VPS_F2", "WSS", "CC_F1", "CC_F2", "CC_625" };
 static struct frame HF;         /* reference frame: every service on its own line */
 static struct frame HFI, HBLI; /* both frames stored interlaced (letter "reconfigure": the same parameters with interlaced toggled) */
 static struct frame HBL;        /* the same geometry, every line blank: no record, and the frames after it decode as before
                                    (the decoder predicts lines as blank and skips them for up to 15 frames) */
+static struct frame HF1, HBL1;  /* letter "resize": the same transmissions in a window whose second field is 6 lines shorter (318..329);
+                                   only count[1] differs, the field compared last by vbi_raw_decoder_resize() */
 
 static const char *hist_letter(int l, void *arg)
 {
@@ -909,6 +911,7 @@ static const char *hist_letter(int l, void *arg)
         if (l == NHLET - 1) return "decode";
         if (l == NHLET - 2) return "decode blank frame";
         if (l == NHLET - 3) return "set_sampling_par: sequential <-> interlaced";
+        if (l == NHLET - 4) return "resize: second field 12 <-> 18 lines";
         snprintf(b, sizeof b, "%s %s", l < NHSVC ? "add" : "remove", hsvc_name[l % NHSVC]);
         return b;
 }
@@ -932,13 +935,18 @@ static void hist_frame(void)
         if (!frame_render(&HBL, 0)) { fprintf(stderr, "C04: cannot render the blank history frame\n"); exit(2); }
         HFI = HF; HFI.raw = NULL; HFI.gsp.interlaced = TRUE; HBLI = HBL; HBLI.raw = NULL; HBLI.gsp.interlaced = TRUE;
         if (!frame_render(&HFI, 0) || !frame_render(&HBLI, 0)) { fprintf(stderr, "C04: cannot render the interlaced history frames\n"); exit(2); }
+        memset(&HF1, 0, sizeof HF1); HF1.gsp = HF.gsp; HF1.gsp.count[1] = 12;
+        for (int i = 0; i < HF.ntx; i++) if (HF.tx[i].field == 0 || HF.tx[i].line < 318 + 12) HF1.tx[HF1.ntx++] = HF.tx[i];
+        memset(&HBL1, 0, sizeof HBL1); HBL1.gsp = HF1.gsp;
+        if (!frame_render(&HF1, 0) || !frame_render(&HBL1, 0)) { fprintf(stderr, "C04: cannot render the resized history frames\n"); exit(2); }
 }
-struct hist_exp { unsigned eff; };
+struct hist_exp { unsigned eff; const struct frame *fr; };
 static int hist_expect(void *arg, unsigned granted, struct expect *e)
 {
         struct hist_exp *x = arg; int n = 0; (void) granted;
-        for (int i = 0; i < HF.ntx; i++) {
-                const struct tx *t = &HF.tx[i]; int cov = 0;
+        const struct frame *fr = x->fr ? x->fr : &HF;
+        for (int i = 0; i < fr->ntx; i++) {
+                const struct tx *t = &fr->tx[i]; int cov = 0;
                 for (int k = 0; k < NSV && !cov; k++) {
                         const struct svc *v = &SV[k];
                         int asked = (v->id & x->eff) == v->id || (v->id == VBI_SLICED_TELETEXT_B && (x->eff & VBI_SLICED_TELETEXT_B_L25_625));
@@ -954,15 +962,15 @@ static int hist_run(const uint8_t *h, int n, uint64_t hash[2], void *arg)
         char hs[400] = ""; struct ctx c = { "history", 27000000, 1440, 262, VBI_PIXFMT_YUV420, 0, 1, 0, hs };
         const char *entry = legacy ? "vbi_raw_decode after add/remove history" : "vbi3_raw_decoder after add/remove history";
         vbi_raw_decoder lrd; vbi3_raw_decoder *rd;
-        unsigned want = 0, G = 0; int bad = 0, il = 0;
+        unsigned want = 0, G = 0; int bad = 0, il = 0, small = 1;     /* histories start in the short window: a resize that is lost leaves lines 330..335 undecoded */
         for (int i = 0; i < n; i++) { strncat(hs, hist_letter(h[i], NULL), sizeof hs - strlen(hs) - 3); strcat(hs, "; "); }
         mc_case(entry, "history: %s", hs);
         if (legacy) {
                 vbi_raw_decoder_init(&lrd);
                 lrd.scanning = 625; lrd.sampling_format = VBI_PIXFMT_YUV420; lrd.sampling_rate = HF.gsp.sampling_rate; lrd.bytes_per_line = HF.gsp.bytes_per_line; lrd.offset = HF.gsp.offset;
-                lrd.start[0] = 6; lrd.count[0] = 18; lrd.start[1] = 318; lrd.count[1] = 18; lrd.interlaced = 0; lrd.synchronous = 1;
+                lrd.start[0] = 6; lrd.count[0] = 18; lrd.start[1] = 318; lrd.count[1] = 12; lrd.interlaced = 0; lrd.synchronous = 1;
                 rd = (vbi3_raw_decoder *) lrd.pattern;
-        } else rd = vbi3_raw_decoder_new(&HF.gsp);
+        } else rd = vbi3_raw_decoder_new(&HF1.gsp);
         vbi_sliced *out = out_alloc(39);
         for (int i = 0; i <= n && !bad; i++) {
                 int l = i < n ? h[i] : NHLET - 1;         /* every history ends with the audit decode */
@@ -977,7 +985,22 @@ static int hist_run(const uint8_t *h, int n, uint64_t hash[2], void *arg)
                         G = legacy ? vbi_raw_decoder_remove_services(&lrd, HSVC[l - NHSVC]) : vbi3_raw_decoder_remove_services(rd, HSVC[l - NHSVC]);
                         if (want & VBI_SLICED_TELETEXT_B) want |= G & VBI_SLICED_TELETEXT_B;      /* while a B level is wanted, the levels reported as decoded are what the caller gets */
                 }
+                else if (l == NHLET - 4) {
+                        /* the window changes (0.2: vbi_raw_decoder_resize(), documented to keep the services; vbi3: set_sampling_par).
+                         * Unequal field counts cannot be stored interlaced: the letter does nothing then. */
+                        if (il) continue;
+                        small ^= 1;
+                        if (legacy) {
+                                int st[2] = { 6, 318 }; unsigned ct[2] = { 18, small ? 12 : 18 };
+                                vbi_raw_decoder_resize(&lrd, st, ct);
+                                rd = (vbi3_raw_decoder *) lrd.pattern;
+                                G = vbi3_raw_decoder_services(rd);
+                        } else {
+                                G = vbi3_raw_decoder_set_sampling_par(rd, small ? &HF1.gsp : &HF.gsp, 0);
+                        }
+                }
                 else if (l == NHLET - 3) {
+                        if (small) continue;             /* see above */
                         /* only the field storage mode changes; the services stay (vbi3: re-added by the call; 0.2: reset drops them, the caller adds them again) */
                         il ^= 1;
                         if (legacy) {
@@ -992,17 +1015,19 @@ static int hist_run(const uint8_t *h, int n, uint64_t hash[2], void *arg)
                 }
                 else if (l == NHLET - 2) {
                         memset(out, CANARY, 39 * sizeof *out);
-                        unsigned cnt = legacy ? (unsigned) vbi_raw_decode(&lrd, il ? HBLI.raw : HBL.raw, out) : vbi3_raw_decoder_decode(rd, out, 36, il ? HBLI.raw : HBL.raw);
+                        const uint8_t *img = small ? HBL1.raw : il ? HBLI.raw : HBL.raw;
+                        unsigned cnt = legacy ? (unsigned) vbi_raw_decode(&lrd, (uint8_t *) img, out) : vbi3_raw_decoder_decode(rd, out, 36, img);
                         if (!check_records(entry, &c, NULL, 0, out, cnt, 39, want)) bad = 1;
                         mc_count("evaluations", 1);
                         continue;
                 }
                 else {
                         unsigned clo = want | ((want & VBI_SLICED_TELETEXT_B) ? VBI_SLICED_TELETEXT_B : 0);      /* Teletext B records carry the merged id */
-                        struct hist_exp x = { G & want }; struct expect e[MAXROWS];
+                        struct hist_exp x = { G & want, small ? &HF1 : &HF }; struct expect e[MAXROWS];
                         int ne = hist_expect(&x, 0, e);
                         memset(out, CANARY, 39 * sizeof *out);
-                        unsigned cnt = legacy ? (unsigned) vbi_raw_decode(&lrd, il ? HFI.raw : HF.raw, out) : vbi3_raw_decoder_decode(rd, out, 36, il ? HFI.raw : HF.raw);
+                        const uint8_t *img = small ? HF1.raw : il ? HFI.raw : HF.raw;
+                        unsigned cnt = legacy ? (unsigned) vbi_raw_decode(&lrd, (uint8_t *) img, out) : vbi3_raw_decoder_decode(rd, out, 36, img);
                         if (!check_records(entry, &c, e, ne, out, cnt, 39, clo)) bad = 1;
                         mc_count("evaluations", 1);
                         continue;
@@ -1016,7 +1041,7 @@ static int hist_run(const uint8_t *h, int n, uint64_t hash[2], void *arg)
         /* canonical state: what determines future decoding - service set, jobs, per line job pattern.
          * (slicer thresholds adapt continuously and are left out.) */
         mc_hash hh; mc_hash_init(&hh);
-        mc_hash_u64(&hh, rd->services); mc_hash_u64(&hh, rd->n_jobs); mc_hash_u64(&hh, want); mc_hash_u64(&hh, (unsigned) rd->readjust); mc_hash_u64(&hh, il * 2 + rd->sampling.interlaced);
+        mc_hash_u64(&hh, rd->services); mc_hash_u64(&hh, rd->n_jobs); mc_hash_u64(&hh, want); mc_hash_u64(&hh, (unsigned) rd->readjust); mc_hash_u64(&hh, il * 2 + rd->sampling.interlaced + small * 4 + rd->sampling.count[1] * 8);
         for (unsigned j = 0; j < rd->n_jobs; j++) mc_hash_u64(&hh, rd->jobs[j].id);
         if (rd->pattern) mc_hash_add(&hh, rd->pattern, 36 * _VBI3_RAW_DECODER_MAX_WAYS);
         hash[0] = hh.a; hash[1] = hh.b;
